@@ -59,6 +59,21 @@ impl Project {
   }
 }
 
+/// a project whose rule (and utilities) are built around concrete nodes of the document
+pub fn gen_witnessed_project(rng: &mut Rng, lang: SupportLang, nodes: &[N], depth: usize, allow_vars: bool) -> Project {
+  let mut counter = 0usize;
+  let n = rng.pick(nodes).clone();
+  let mut utils: Vec<(String, RObj)> = vec![];
+  if rng.chance(1, 3) {
+    // a utility witnessed by the same node or a neighbour
+    let m = if rng.chance(1, 2) { n.clone() } else { n.parent().unwrap_or_else(|| n.clone()) };
+    utils.push(("u0".to_string(), gen_witnessed(rng, lang, &m, depth.saturating_sub(1), &mut counter, allow_vars, &[])));
+  }
+  let unames: Vec<String> = utils.iter().map(|u| u.0.clone()).collect();
+  let rule = gen_witnessed(rng, lang, &n, depth, &mut counter, allow_vars, &unames);
+  Project { rule, utils, constraints: vec![] }
+}
+
 pub fn gen_project(rng: &mut Rng, ing: &Ingredients, depth: usize, allow_vars: bool, with_constraints: bool) -> Project {
   let mut counter = 0usize;
   let mut utils: Vec<(String, RObj)> = vec![];
@@ -135,7 +150,13 @@ pub fn run_stream(o: &Opts, which: &str) {
       for _ in 0..per_src {
         let shared = which == "c04";
         let wc = shared && rng.chance(1, 3);
-        let p = gen_project(&mut rng, &ing, if o.thorough { 4 } else { 3 }, shared, wc);
+        let p = if rng.chance(1, 2) {
+          out.count("gen:witnessed");
+          gen_witnessed_project(&mut rng, lang, &dc.nodes, if o.thorough { 3 } else { 2 }, shared)
+        } else {
+          out.count("gen:random");
+          gen_project(&mut rng, &ing, if o.thorough { 4 } else { 3 }, shared, wc)
+        };
         let core = match p.load(lang) {
           Ok(c) => c,
           Err(e) => {
